@@ -6,7 +6,8 @@ proof:        lean/BMV/Props/C07.lean — map walks take the iteration order as 
               getReqs consumers; order-sensitivity witnesses + determinism of the repairs for the
               neuralbond cpdef loop and matcherResolver's alternative numbering.
 regenerated:  harness/cmd/c07 (go/parser + go/types) walks the packages of the five tools and
-              writes lean/BMV/Gen/MapRanges.lean: every `range` over a map (file, function,
+              writes lean/BMV/Gen/MapRanges.lean: every `range` over a map or over a slice that is
+              extended in map order (Allopcodes, bi.matchers) (file, function,
               expression, ordinal, syntactic class of the body), every clock / math/rand /
               temp-path use, every `go` statement.  Kernel obligation: every generated site is in
               the hand-written table lean/BMV/SchedExpect.lean with the same class.
@@ -154,21 +155,19 @@ def _bin(name):
 
 
 def build_clis():
-    """build the five CLIs with vlib.go_build_repo and copy each into a directory of our own while
-    holding the go lock: other checks rebuild (delete + build) the shared .build/bin binaries at
-    any time"""
+    """build the five CLIs from the working tree into a directory of our own, in ONE `go build`
+    invocation (same flags, environment and lock as vlib.go_build_repo; five separate invocations
+    cost ~45 s of sequential linking, one costs ~12 s; and other checks delete and rebuild the
+    shared .build/bin binaries at any time, so we do not run from there)"""
     os.makedirs(PRIV, exist_ok=True)
-    for c in CLIS:
-        for attempt in range(4):
-            src = vlib.go_build_repo(c)
-            with vlib.Lock("go"):
-                if os.path.exists(src):
-                    tmp = os.path.join(PRIV, c + ".tmp")
-                    shutil.copy2(src, tmp)
-                    os.replace(tmp, os.path.join(PRIV, c))
-                    break
-        else:
-            raise vlib.BuildError("cmd/%s disappeared from %s four times in a row" % (c, vlib.BIN))
+    with vlib.Lock("go"):
+        for c in CLIS:
+            if os.path.exists(_bin(c)):
+                os.remove(_bin(c))
+        cmd = ["go", "build", "-tags", "verif", "-o", PRIV + os.sep] + ["./cmd/" + c for c in CLIS]
+        rc, so, se = vlib.run(cmd, cwd=vlib.REPO, env=vlib.goenv(), timeout=900)
+    if rc != 0 or not all(os.path.exists(_bin(c)) for c in CLIS):
+        raise vlib.BuildError("go build of cmd/{%s} failed:\n%s%s" % (",".join(CLIS), so, se))
 
 
 def _corp(*p):
@@ -321,18 +320,11 @@ def first_diff_excerpt(a, b):
 # ---------------------------------------------------------------------------------------------
 
 def regenerate(hbin):
-    rc, so, se = vlib.run([hbin, "extract", vlib.REPO], env=vlib.goenv(), timeout=600)
+    """one extractor pass: rewrites lean/BMV/Gen/MapRanges.lean (only when it changed) and returns the table as JSON"""
+    os.makedirs(os.path.dirname(GEN), exist_ok=True)
+    rc, js, se = vlib.run([hbin, "both", vlib.REPO, GEN], env=vlib.goenv(), timeout=600)
     if rc != 0:
         raise vlib.BuildError("site extractor failed on %s:\n%s" % (vlib.REPO, se[-3000:]))
-    old = open(GEN, encoding="utf-8").read() if os.path.exists(GEN) else None
-    if old != so:
-        os.makedirs(os.path.dirname(GEN), exist_ok=True)
-        tmp = GEN + ".tmp"
-        open(tmp, "w", encoding="utf-8").write(so)
-        os.replace(tmp, GEN)
-    rc, js, se = vlib.run([hbin, "json", vlib.REPO], env=vlib.goenv(), timeout=600)
-    if rc != 0:
-        raise vlib.BuildError("site extractor (json) failed:\n%s" % se[-3000:])
     return json.loads(js)
 
 
@@ -632,14 +624,22 @@ def static_summary(sites, rows, diag):
 
 
 def run(rep):
+    import time
     thorough = rep.tier == "thorough"
+    t0 = time.monotonic()
+    phase = rep.coverage.setdefault("phase_s", {})
     hbin = vlib.go_build("c07")
     build_clis()
+    phase["go_build"] = round(time.monotonic() - t0, 1)
+    t1 = time.monotonic()
     gen = regenerate(hbin)
+    phase["extract"] = round(time.monotonic() - t1, 1)
     sites = gen["sites"]
     rows = read_expect()
     diag = table_diagnosis(sites, rows)
+    t1 = time.monotonic()
     pr = vlib.prove(PROP, MODULES, exes=[EXE], leanchecker=thorough)
+    phase["prove"] = round(time.monotonic() - t1, 1)
     if gen.get("problems"):
         pr["ok"] = False
         pr["broken"].append("extractor problems: " + "; ".join(gen["problems"][:3]))
@@ -667,7 +667,9 @@ def run(rep):
     rep.coverage["unmodelled"] = ["extra modules with cluster / board map files (etherbond, udpbond, bondirect, uart, bmapi): sites "
                                   "classified .unproved, not exercised by the corpus",
                                   "bondgo multi-goroutine programs with channels", "flopoco-backed number types (external binary)"]
+    t1 = time.monotonic()
     jobs, results, r = correspondence(rep, thorough)
+    phase["tool_runs"] = round(time.monotonic() - t1, 1)
     violations, known_hits, listed = judge(rep, jobs, results, r)
     oprob, nmodel = oracle_crosscheck(rep, diag, jobs, results)
     rep.coverage["model_walks_replayed_against_neuralbond_output"] = nmodel
